@@ -104,7 +104,7 @@ def run(ctx):
         raise vlib.Inconclusive("unknown clauses in the tables: %s" % sorted(set(whys) - WHYS))
 
     ins = list(reqsets.values()) + cfgs
-    rows, summ = replay_vectors(ctx, ins, 1 if ctx.quick else 2)
+    rows, summ = replay_vectors(ctx, ins, 1 if ctx.quick else 3)
     for r in rows:
         if r.get("kind") == "bad":
             ctx.disagreement(classify(r), r, "outcome %s not admitted by DnsFront %s for %s (%s)" % (
@@ -146,6 +146,8 @@ def run(ctx):
     }
     if never:
         covd["tlc_zero_coverage_lines"] = never[:10]
+    if flaky > 20:
+        raise vlib.Inconclusive("%d evaluations disagreed once and agreed when repeated" % flaky)
     if flaky > 0:
         ctx.notes.append("%d evaluations disagreed once and agreed when repeated" % flaky)
     return ctx.finish("model_checking", covd, assumptions=[
